@@ -35,7 +35,7 @@ diff -r "$WORK/out" "$WORK/out2" > /dev/null && echo "second run: byte-identical
 coqc_() { (cd "$WORK/coq" && timeout 1800 coqc -Q theories Cqos -w -notation-overridden "theories/$1.v"); }
 
 echo "== compile the models, GoSem and every generated file"
-for f in Base Float64 Divider Sched RateConv Prio2 Prio1 GoSem; do coqc_ $f; done
+for f in Base Float64 Divider Sched RateConv Prio2 Utils GoSem; do coqc_ $f; done
 cp "$WORK"/out/Gen*.v "$WORK/coq/theories/"
 for f in "$WORK"/out/Gen*.v; do
   n=$(basename "$f" .v)
@@ -46,17 +46,21 @@ cp "$HERE/smoke/TieSmoke.v" "$WORK/coq/theories/" && coqc_ TieSmoke && echo "Tie
 
 echo "== run the Go functions on random inputs (scratch copy of the repo)"
 cp -r "$HERE/validate/go/." "$WORK/repo/"
-gotest() { # module-dir package out-file
-  (cd "$WORK/repo/$1" && GOTRANS_VAL_OUT="$WORK/coq/theories/$3.v" timeout 900 go test -count=1 -run 'TestGotransVal$' "$2" > "$WORK/gotest.log" 2>&1) || { cat "$WORK/gotest.log"; exit 1; }
+gotest() { # module-dir package out-file [test name]
+  (cd "$WORK/repo/$1" && GOTRANS_VAL_OUT="$WORK/coq/theories/$3.v" timeout 900 go test -count=1 -run "${4:-TestGotransVal}\$" "$2" > "$WORK/gotest.log" 2>&1) || { cat "$WORK/gotest.log"; exit 1; }
   test -s "$WORK/coq/theories/$3.v"
 }
 gotest v2 ./priority/divider/ CasesV2Divider
 gotest v2 ./limit/ CasesRate
+gotest v2 ./priority/ CasesV2Prio
+gotest v2 ./priority/utils/ CasesV2Utils
+gotest . ./priority/ CasesV1Divider TestGotransValDivider
+gotest . ./priority/ CasesV1Prio TestGotransValPrio
 
 echo "== evaluate the generated functions and the models in Coq"
 cp "$HERE"/validate/coq/*.v "$WORK/coq/theories/"
 coqc_ ValCommon
-for v in V2Divider Rate; do
+for v in V2Divider Rate V2Prio V1Divider V1Prio V2Utils; do
   coqc_ Cases$v
   /usr/bin/time -f "Val$v.v: %es" bash -c "cd '$WORK/coq' && timeout 3600 coqc -Q theories Cqos theories/Val$v.v"
 done
